@@ -55,6 +55,107 @@ func (e *vEnv) queryAll(tbk *io.TimeBucketKey) (*io.ColumnSeries, error) {
 	return csm[*tbk], nil
 }
 
+// candidate slot starts (unix seconds, UTC) per timeframe: year edges, leap day and the slot that
+// shares its index with the leap day in a non-leap year
+func vSlots(tfSec int64, wide bool) []int64 {
+	d := func(y int, m time.Month, day, h int) int64 { return time.Date(y, m, day, h, 0, 0, 0, time.UTC).Unix() }
+	last := 24 - int(tfSec/3600)
+	if tfSec < 3600 {
+		last = 23
+	}
+	s := []int64{d(2019, 12, 31, last), d(2020, 1, 1, 0), d(2019, 1, 1, 0), d(2020, 2, 29, 0), d(2019, 3, 1, 0), d(2020, 12, 31, last)}
+	if wide {
+		s = append(s, d(2019, 12, 30, 0), d(2020, 1, 2, 0), d(2020, 2, 28, last), d(2020, 3, 1, 0), d(2021, 1, 1, 0))
+	}
+	return s
+}
+
+func vWriteRows(e *vEnv, tbk *io.TimeBucketKey, ts []int64, vs []int32) error {
+	cs := io.NewColumnSeries()
+	cs.AddColumn("Epoch", ts)
+	cs.AddColumn("V", vs)
+	csm := io.NewColumnSeriesMap()
+	csm.AddColumnSeries(*tbk, cs)
+	return e.w.WriteCSM(csm, false)
+}
+
+// C08: write requests {row0,row1} then {row2} into a fixed-length bucket, then query all time.
+// Each row's interval is case-split over the candidate slots; the offset inside the interval and
+// the values are symbolic. Oracle (plain unix-second arithmetic): one row per written interval,
+// ascending, stamped with the interval start, carrying the value of the last write.
+func VerifC08History() {
+	rt.Opt("clock", 1)
+	root := rt.TempDir()
+	defer rt.Cleanup()
+	e := vStart(root, 7)
+	var tfSec int64 = 86400
+	key := "AAPL/1D/OHLCV"
+	if rt.Fix(rt.Int("tf", 0, 1)) == 1 {
+		tfSec, key = 3600, "AAPL/1H/OHLCV"
+	}
+	tbk := io.NewTimeBucketKey(key)
+	slots := vSlots(tfSec, rt.Tier() == 1)
+	const nrows = 3
+	var slot [nrows]int64
+	var ts [nrows]int64
+	var vs [nrows]int32
+	names := [nrows][3]string{{"slot0", "off0", "v0"}, {"slot1", "off1", "v1"}, {"slot2", "off2", "v2"}}
+	jan1 := false
+	for i := 0; i < nrows; i++ {
+		slot[i] = slots[int(rt.Fix(rt.Int(names[i][0], 0, int64(len(slots)-1))))]
+		ts[i] = slot[i] + rt.Int(names[i][1], 0, tfSec-1)
+		vs[i] = rt.Int32(names[i][2])
+		if tfSec == 86400 && time.Unix(slot[i], 0).UTC().YearDay() == 1 {
+			jan1 = true
+		}
+	}
+	rt.Reach("entered")
+	if err := vWriteRows(e, tbk, []int64{ts[0], ts[1]}, []int32{vs[0], vs[1]}); err != nil {
+		rt.Assert(false, "write-accepted")
+	}
+	if err := vWriteRows(e, tbk, []int64{ts[2]}, []int32{vs[2]}); err != nil {
+		rt.Assert(false, "write-accepted")
+	}
+	rt.Reach("written")
+	cs, err := e.queryAll(tbk)
+	rt.Assert(err == nil, "query-without-error")
+	rt.Reach("queried")
+	ep := cs.GetEpoch()
+	col, _ := cs.GetColumn("V").([]int32)
+
+	// oracle over the (concrete) slots: last write per slot, ascending
+	var wantT []int64
+	var wantV []int32
+	for i := 0; i < nrows; i++ {
+		found := false
+		for k := range wantT {
+			if wantT[k] == slot[i] {
+				wantV[k] = vs[i]
+				found = true
+			}
+		}
+		if !found {
+			wantT = append(wantT, slot[i])
+			wantV = append(wantV, vs[i])
+		}
+	}
+	for a := 0; a < len(wantT); a++ {
+		for b := a + 1; b < len(wantT); b++ {
+			if wantT[b] < wantT[a] {
+				wantT[a], wantT[b] = wantT[b], wantT[a]
+				wantV[a], wantV[b] = wantV[b], wantV[a]
+			}
+		}
+	}
+	rt.Region("C08-1D-january-first-never-returned", jan1)
+	rt.Assert(len(ep) == len(wantT), "one-row-per-interval")
+	rt.Assert(len(col) == len(wantT), "one-value-per-interval")
+	for k := range wantT {
+		rt.Assert(ep[k] == wantT[k], "rows-ascending-stamped-with-interval-start")
+		rt.Assert(col[k] == wantV[k], "last-writer-wins")
+	}
+}
+
 // C08 (thin): two write requests of one row each into a 1D fixed-length bucket; the rows'
 // days are symbolic inside a window of 4 consecutive days at a year anchor.
 func VerifC08TwoWrites() {
